@@ -594,8 +594,8 @@ func runNotify(r *SeqRun) {
 		scheds = sel
 	}
 	r.NGen = len(scheds)
-	nfree := tierN(r.Tier, 1500, 30000)
-	nblock := tierN(r.Tier, 40, 600)
+	nfree := tierN(r.Tier, 1500, 200000)
+	nblock := tierN(r.Tier, 40, 2500)
 	workers := 12
 	var wg sync.WaitGroup
 	var drifts atomic.Int64
